@@ -11,7 +11,7 @@ import errno
 from proxy.common.flag import FlagParser
 from proxy.http.exception import HttpRequestRejected
 from proxy.http.proxy import HttpProxyBasePlugin
-from proxy.http.responses import PROXY_AUTH_FAILED_RESPONSE_PKT
+from proxy.http.responses import PROXY_AUTH_FAILED_RESPONSE_PKT, PROXY_TUNNEL_ESTABLISHED_RESPONSE_PKT
 
 from vlib import envkit, refhttp, scen
 from vlib.hk import CFG, begin, ok, fail, skip, B, run, cat, concrete
@@ -87,6 +87,7 @@ FL = {
     (2, False): FlagParser.initialize(['--threadless'], plugins=PLUGS[:2]),
     (3, False): FlagParser.initialize(['--threadless'], plugins=PLUGS[:3]),
     (2, True): FlagParser.initialize(['--threadless', '--basic-auth', 'u:p'], plugins=PLUGS[:2]),
+    ('pool', False): FlagParser.initialize(['--threadless', '--enable-conn-pool'], plugins=PLUGS[:2]),
     ('rev', False): FlagParser.initialize(['--threadless'], plugins=[PLUGS[1], PLUGS[0]]),
 }
 
@@ -126,7 +127,11 @@ def chain(a0: int, a1: int, a2: int, b0: int, b1: int, b2: int) -> bool:
         env = envkit.new_env()
         h, cs = envkit.make_handler(FL[key], env)
     cred = b'Proxy-Authorization: Basic dTpw\r\n' if auth == 'good' else (b'Proxy-Authorization: Basic bad\r\n' if auth == 'bad' else b'')
-    cs.inq.append(b'GET http://o.example/x HTTP/1.1\r\nHost: o.example\r\n' + cred + b'\r\n')
+    tunnel = bool(CFG.get('connect'))
+    if tunnel:
+        cs.inq.append(b'CONNECT o.example:443 HTTP/1.1\r\nHost: o.example:443\r\n' + cred + b'\r\n')
+    else:
+        cs.inq.append(b'GET http://o.example/x HTTP/1.1\r\nHost: o.example\r\n' + cred + b'\r\n')
     try:
         td = run(h.handle_events([cs.fd], []))
     except Exception as e:
@@ -184,8 +189,9 @@ def chain(a0: int, a1: int, a2: int, b0: int, b1: int, b2: int) -> bool:
             m = refhttp.read_message(out, True)
         except refhttp.Malformed as e:
             return fail('rejection response malformed', why=str(e), out=repr(out[:80]))
-        if m['body'] != reject_body:
-            return fail('response is not exactly the one the rejecting plugin chose', body=repr(m['body']), want=repr(reject_body))
+        if m['body'] != reject_body or m['remainder'] != b'':
+            return fail('response is not exactly the one the rejecting plugin chose', body=repr(m['body']), want=repr(reject_body),
+                        out=repr(out[:120]))
         if result == 'reject' and nconn:
             return fail('upstream contacted although a plugin rejected before the connection', nconn=nconn)
         if sent != b'':
@@ -199,6 +205,14 @@ def chain(a0: int, a1: int, a2: int, b0: int, b1: int, b2: int) -> bool:
     if result in ('dropped', 'no-upstream'):
         if sent != b'':
             return fail('request forwarded although the chain said "no request"', sent=repr(sent[:60]))
+        if out != b'':
+            return fail('the core answered a request the chain had dropped', out=repr(out[:80]))
+        return ok()
+    if tunnel:
+        if sent != b'':
+            return fail('CONNECT request forwarded into the tunnel', sent=repr(sent[:60]))
+        if out != PROXY_TUNNEL_ESTABLISHED_RESPONSE_PKT.tobytes():
+            return fail('tunnel not acknowledged with exactly the 200 Connection established response', out=repr(out[:80]))
         return ok()
     try:
         m = refhttp.read_message(sent, False)
@@ -320,7 +334,7 @@ def lifecycle(c0: int, c1: int, l0: int, l1: int) -> bool:
         env = envkit.new_env()
         if ending == 'connect_fail':
             env.connect_script = [ConnectionRefusedError(errno.ECONNREFUSED, 'refused')]
-        xk = envkit.Executor(FL[(2, False)], env)
+        xk = envkit.Executor(FL[('pool', False) if CFG.get('pool') else (2, False)], env)
         cs = xk.accept('client')
     ex = xk.ex
     complete = ending != 'incomplete'
@@ -413,6 +427,8 @@ def obligations(tier):
                                 'group': 'chain'})
         else:
             obs.append({'name': 'chain.n%d' % n, 'fn': 'chain', 'cfg': {'n': n}, 'timeout': T, 'group': 'chain'})
+    obs.append({'name': 'chain.connect.n1', 'fn': 'chain', 'cfg': {'n': 1, 'connect': True}, 'timeout': T, 'group': 'chain'})
+    obs.append({'name': 'chain.connect.n2', 'fn': 'chain', 'cfg': {'n': 2, 'connect': True}, 'timeout': T, 'group': 'chain'})
     obs.append({'name': 'chain2.followup', 'fn': 'chain2', 'cfg': {}, 'timeout': T, 'group': 'chain2'})
     obs.append({'name': 'chain.reversed', 'fn': 'chain', 'cfg': {'n': 2, 'reversed': True}, 'timeout': T, 'group': 'chain'})
     obs.append({'name': 'chain.auth_good', 'fn': 'chain', 'cfg': {'n': 2, 'auth': 'good'}, 'timeout': T, 'group': 'chain'})
@@ -420,6 +436,9 @@ def obligations(tier):
     for ending in ('normal', 'client_eof', 'client_eof_after', 'client_reset', 'upstream_eof', 'upstream_reset', 'connect_fail', 'reject',
                    'incomplete'):
         obs.append({'name': 'lifecycle.%s' % ending, 'fn': 'lifecycle', 'cfg': {'ending': ending}, 'timeout': T, 'group': 'lifecycle'})
+        if ending != 'incomplete':
+            obs.append({'name': 'lifecycle.pool.%s' % ending, 'fn': 'lifecycle', 'cfg': {'ending': ending, 'pool': True}, 'timeout': T,
+                        'group': 'lifecycle'})
     return obs
 
 
@@ -439,9 +458,9 @@ META = {
         'quick': '1..3 recording plugins (distinct classes, loaded through the real flag/plugin loader, also in reversed order and behind the '
                  'auth plugin); per plugin the behaviour of before_upstream_connection and handle_client_request is one of {pass, modify '
                  '(adds a marker header the next plugin must see), drop (None), reject (own status/body)}: all 16 (n=1), 256 (n=2) and a '
-                 '7/16 slice of 4096 (n=3) tables; upstream-chunk chain and access-log chain with {pass, modify, drop} per plugin; 9 ways the '
+                 '7/16 slice of 4096 (n=3) tables, for a plain request and (n=1,2) for a CONNECT request; upstream-chunk chain and access-log chain with {pass, modify, drop} per plugin; 9 ways the '
                  'connection ends (normal, client EOF before/after a response, client reset, upstream EOF/reset, connect failure, rejection, '
-                 'request never completed) on the real executor',
+                 'request never completed) on the real executor, without and with --enable-conn-pool',
         'thorough': 'the full n=3 table',
     },
     'outside': 'hooks of other plugin families (web, reverse proxy), plugins that raise arbitrary exceptions, TLS interception hooks',
